@@ -65,6 +65,43 @@ def crafted_inputs(r):
     out.append(("crafted:warc-long-header", b"WARC/1.0\r\nWARC-Type: resource\r\nWARC-Target-URI: file://" + b"x" * 150000 + b"\r\nContent-Length: 1\r\n\r\nA\r\n\r\n"))
     return out
 
+def multiframe_inputs(mk_exe, arcs):
+    """concatenated compressed members written with DIFFERENT options (decoders keep state - buffers, windows,
+    dictionaries - from one member to the next): a tar stream cut in two, each half compressed on its own"""
+    tar = dict(arcs).get("w:ustar#big") or dict(arcs).get("w:ustar")
+    if not tar:
+        return []
+    halves = (tar[: len(tar) // 2], tar[len(tar) // 2:])
+    variants = {
+        "lz4": ["lz4:block-size=4", "lz4:block-size=4,lz4:block-dependence", "lz4:block-size=7", "lz4:block-size=5,lz4:block-dependence",
+                "lz4:block-size=4,lz4:block-checksum,lz4:stream-checksum"],
+        "zstd": ["zstd:compression-level=1", "zstd:compression-level=19", "zstd:long=27"],
+        "gzip": ["gzip:compression-level=1", "gzip:compression-level=9"],
+        "xz": ["xz:compression-level=0", "xz:compression-level=9"],
+        "bzip2": ["bzip2:compression-level=1", "bzip2:compression-level=9"],
+    }
+    specs, labels = [], []
+    for flt, opts in variants.items():
+        for o in opts:
+            for hi, h in enumerate(halves):
+                specs.append(vfmt(["raw", flt, o, 512, [["data", AE_IFREG, 0o644, 0, 0, 0, h, b"", b"", 0, []]]]))
+                labels.append((flt, o, hi))
+    rc, lines, err = vlib.run_exe(mk_exe, vlib.write_cases(specs, "c01-frames.cases"), timeout=600)
+    made = {}
+    for lab, l in zip(labels, lines):
+        v = vparse(l)
+        if v[0] >= -20 and v[-2] >= -20:
+            made[lab] = v[-1]
+    out = []
+    for flt, opts in variants.items():
+        for o1 in opts:
+            for o2 in opts:
+                if o1 != o2 and (flt, o1, 0) in made and (flt, o2, 1) in made:
+                    out.append(("frames:%s:%s+%s" % (flt, o1, o2), made[(flt, o1, 0)] + made[(flt, o2, 1)]))
+    return out
+
+AE_IFREG = 0o100000
+
 def run_resilient(rep, exe, cases, meta, per_batch_timeout):
     """run cases; after a crash/hang report the culprit and continue with the rest"""
     lines = []
@@ -148,6 +185,10 @@ def run(rep):
         for plan in ([], [4096] * (len(data) // 4096 + 2), [65536] * (len(data) // 65536 + 2)):
             rcases.append(readcore.read_case(data, source=(0,), rplan=plan, consume=(0, 4096, 0)))
             meta.append((name, "crafted", plan[0] if plan else 0, (0, 4096, 0)))
+    for name, data in multiframe_inputs(mk, arcs):
+        for plan in ([], [10240] * (len(data) // 10240 + 2)):
+            rcases.append(readcore.read_case(data, source=(0,), rplan=plan, consume=(0, 4096, 0)))
+            meta.append((name, "two-members", plan[0] if plan else 0, (0, 4096, 0)))
     # line-oriented decoders: cut at every line boundary and one byte either side (the decoder's end-of-input paths)
     for name, arc in arcs:
         if not (name.startswith("w:") and ("uuencode" in name or "b64encode" in name)):
